@@ -243,6 +243,8 @@ type verifROutcome struct {
 	FirstHashMerge bool   // delete rejected because the branch moved between two attempts
 	Forcing        bool
 	TrivialNoop    bool // a no-op edit acknowledged by the store although the root had moved
+	// accepted non-forcing commit / fast-forward of an existing branch: the head before and after
+	PrevHead, NewHead string
 }
 
 type verifRModel struct {
@@ -594,6 +596,9 @@ func (m *verifRModel) predict(op *verifROp) *verifROutcome {
 				}
 			}
 			out.Changed = !st.equal(next)
+			if !out.Forcing && st[op.ID] != "" && (op.Kind == verifRCommit || op.Kind == verifRCommitWS || op.Kind == verifRFF) {
+				out.PrevHead, out.NewHead = st[op.ID], next[op.ID]
+			}
 			m.global = next
 			m.history = append(m.history, next.clone())
 			cl.view = next.clone()
